@@ -444,6 +444,9 @@ type Work struct {
 	// BodyFailAt: the k-th HTTP round trip yields a response whose body breaks off
 	// with a read error after its first bytes (the connection died after the header).
 	BodyFailAt int `json:"body_fail_at,omitempty"`
+	// BadURL: the channel was made for a URL no request can be built for: every
+	// Send fails, and Close still has to return.
+	BadURL bool `json:"bad_url,omitempty"`
 	// Raw: the channel is used without a Client: CloseAfter requests are sent,
 	// nothing is received, and Close has to deal with all of them.
 	Raw bool `json:"raw,omitempty"`
@@ -543,6 +546,16 @@ func doOp(cli *jrpc2.Client, op string, i int) string {
 		var out int
 		err := cli.CallResult(ctx, "add", []int{i, 2 * i}, &out)
 		return fmt.Sprintf("call:%d:%v", out, err)
+	case "bigcall":
+		// a request of more than a megabyte
+		xs := make([]int, 220000)
+		for j := range xs {
+			xs[j] = 100000 + j%7
+		}
+		xs[0] = i
+		var out int
+		err := cli.CallResult(ctx, "add", xs, &out)
+		return fmt.Sprintf("bigcall:%d:%v", out, err)
 	case "callerr":
 		_, err := cli.Call(ctx, "fail", nil)
 		return fmt.Sprintf("callerr:%v", err)
@@ -595,7 +608,11 @@ func runWork(t *testing.T, w Work) (v engine.Verdict) {
 					copts = &jhttp.ChannelOptions{}
 				}
 			}
-			hch := jhttp.NewChannel("http://bridge/", copts)
+			target := "http://bridge/"
+			if w.BadURL {
+				target = "http://bridge\x7f/%zz"
+			}
+			hch := jhttp.NewChannel(target, copts)
 			var cli *jrpc2.Client
 			if !w.Raw {
 				cli = jrpc2.NewClient(hch, nil)
@@ -665,7 +682,7 @@ func runWork(t *testing.T, w Work) (v engine.Verdict) {
 	if unclosed > 0 {
 		return engine.Failf("C19/channel/body-not-closed", "%d of %d HTTP response bodies were never closed (workload %+v)", unclosed, total, w)
 	}
-	if !w.Hold && !w.Raw && w.TransportFailAt == 0 && w.BodyFailAt == 0 {
+	if !w.Hold && !w.Raw && w.TransportFailAt == 0 && w.BodyFailAt == 0 && !w.BadURL {
 		if len(overHTTP) > len(overDirect) || (len(overHTTP) > 0 && strings.HasPrefix(overHTTP[len(overHTTP)-1], "call over a failing")) {
 			return engine.Failf("C19/channel/http-failure-ignored", "a call answered with HTTP status 500 reported success")
 		}
@@ -682,6 +699,9 @@ func runWork(t *testing.T, w Work) (v engine.Verdict) {
 	if w.BodyFailAt > 0 {
 		labels = append(labels, "body-read-failure")
 	}
+	if w.BadURL {
+		labels = append(labels, "unusable-url")
+	}
 	return engine.Verdict{NonTrivial: (w.Hold && w.CloseAfter > 0 && len(w.Ops) > 0) || w.Fail500 || w.TransportFailAt > 0 || w.BodyFailAt > 0, Labels: labels}
 }
 
@@ -690,7 +710,7 @@ func genWork(t *testing.T) func(*rapid.T) Work {
 		w := Work{Hold: rapid.Bool().Draw(t, "hold")}
 		n := rapid.IntRange(0, 6).Draw(t, "nops")
 		for i := 0; i < n; i++ {
-			w.Ops = append(w.Ops, rapid.SampledFrom([]string{"call", "call", "notify", "batch", "callerr", "callnf"}).Draw(t, "op"))
+			w.Ops = append(w.Ops, rapid.SampledFrom([]string{"call", "call", "notify", "batch", "callerr", "callnf", "call", "notify", "batch", "bigcall"}).Draw(t, "op"))
 		}
 		w.CloseAfter = rapid.IntRange(0, n).Draw(t, "closeafter")
 		w.Fail500 = !w.Hold && rapid.IntRange(0, 2).Draw(t, "fail500") == 0
@@ -701,6 +721,8 @@ func genWork(t *testing.T) func(*rapid.T) Work {
 		if n > 0 && rapid.IntRange(0, 3).Draw(t, "transportfail") == 0 {
 			w.TransportFailAt = rapid.IntRange(1, n).Draw(t, "failat")
 			w.Fail500 = false
+		} else if rapid.IntRange(0, 7).Draw(t, "badurl") == 0 {
+			w.BadURL, w.Fail500 = true, false
 		} else if n > 0 && rapid.IntRange(0, 3).Draw(t, "bodyfail") == 0 {
 			w.BodyFailAt = rapid.IntRange(1, n).Draw(t, "bodyfailat")
 			w.Fail500 = false
